@@ -58,6 +58,8 @@ PROPS = {
 
 PROJ_SETS = [["s"], ["p"], ["s", "p"], ["sp3"], ["d"], ["t2g"], ["eg"], ["sp3d2"], ["pz"], ["sp2"], ["sp"], ["p2"], ["pxy"], ["s", "d"], ["sp2", "pz"]]
 MATS = ("Ham", "AA", "SS")
+# local frames for projections with site-dependent bases (rows = local x, y, z): identity, C4z, C3[111], C2 about x+y
+FRAMES = [np.eye(3), np.array([[0.0, 1, 0], [-1, 0, 0], [0, 0, 1]]), np.array([[0.0, 1, 0], [0, 0, 1], [1, 0, 0]]), np.array([[0.0, 1, 0], [1, 0, 0], [0, 0, -1]])]
 MIXED_SHELLS = {"orthogonal": ("d", "eg"), "hex": ("p", "d")}      # SymOrbits!MixesShell
 INFO_CLAUSES = ("group_size", "class_recorded", "structure_ok", "shells_allowed", "group_complete")     # harness / irrep vs spec, not the code
 
@@ -75,8 +77,9 @@ def site_orbits(st):
 
 
 # ----------------------------------------------------------------------------- adapters around private names of the package
-def build_symwann(st, rlist):
-    """real space group, SymmetrizerSAWF with one s-like projection per site orbit, SymWann on the R list"""
+def build_symwann(st, rlist, sub=None):
+    """real space group, SymmetrizerSAWF with one s-like projection per site orbit, SymWann on the R list; sub: specification
+    operation numbers of a subgroup, handed over as use_symmetries_index"""
     from wannierberri.symmetry.sawf import SymmetrizerSAWF
     from wannierberri.symmetry.projections import Projection
     from wannierberri.symmetry.sym_wann_2 import SymWann
@@ -84,7 +87,8 @@ def build_symwann(st, rlist):
     orbits = site_orbits(st)
     projs = [Projection(position_num=positions[orb], orbital="s", spacegroup=sg, rotate_basis=False) for orb in orbits]
     symm = SymmetrizerSAWF.from_spacegroup_and_projections(spacegroup=sg, projections=projs)
-    sw = SymWann(symmetrizer=symm, iRvec=[tuple(r) for r in rlist], silent=True)
+    kw = {} if sub is None else dict(use_symmetries_index=[isym for isym, n in enumerate(op_of) if n in set(sub)])
+    sw = SymWann(symmetrizer=symm, iRvec=[tuple(r) for r in rlist], silent=True, **kw)
     return sg, op_of, positions, orbits, projs, symm, sw
 
 
@@ -213,11 +217,45 @@ def exact_replay(rep, st, counts):
             rep.violation("SymmetrizerSAWF:shifts", dict(structure=st["key"], what="the lattice shifts T are neither p_map(a) - g(p_a) nor its negative"))
 
 
+def subgroup_replay(rep, st, kind, counts):
+    """spec -> code : find_irreducible_Rab of a SymWann restricted to a subgroup (use_symmetries_index): every orbit of the
+    listed triples under the operations that are applied must be represented"""
+    sub = list(st["sub"][kind])
+    detail = dict(structure=st["key"], subgroup=kind, operations=[st["ops"][n] for n in sub])
+    try:
+        with quiet(), warnings.catch_warnings():
+            warnings.simplefilter("ignore")
+            good, built = sc.guarded(rep, "SymmetrizerSAWF/SymWann", detail, build_symwann, st, st["rlist"], sub)
+    except TypeError as ex:              # the option was renamed: harness side
+        rep.part("skipped_private", SymWann_use_symmetries_index=str(ex)[:200])
+        return
+    if not good:
+        return
+    sg, op_of, positions, orbits, projs, symm, sw = built
+    orders = block_orders(rep, projs, positions, orbits)
+    if orders is None:
+        return
+    for b1, ord1 in enumerate(orders):
+        for b2, ord2 in enumerate(orders):
+            got = irreducible_triples(rep, sw, b1, b2, st["rlist"], ord1, ord2)
+            if got is None:
+                continue
+            orbs = triple_orbits(st, sub, ord1, ord2)
+            X = set().union(*orbs)
+            rep.case(("irr_sub", st["key"], kind, b1, b2))
+            counts["irr_subgroup"] += 1
+            counts["irr_subgroup_finer"] += int(len(orbs) > len(triple_orbits(st, range(len(st["ops"])), ord1, ord2)))
+            missing = [sorted(o)[0] for o in orbs if not (got & o)]
+            if missing or not got <= X:
+                rep.violation("SymWann:find_irreducible_Rab:subgroup", dict(detail, blocks=[ord1, ord2], rlist=st["rlist"], orbits_not_represented=missing[:10],
+                                                                            not_listed=sorted(got - X)[:10], got=sorted(got),
+                                                                            what="with use_symmetries_index = a subgroup, some orbit of listed triples under the "
+                                                                                 "selected operations has no representative: those hoppings are never averaged"))
+
+
 # ----------------------------------------------------------------------------- numeric: System_R.symmetrize
 def random_system(lattice, positions, names, proj, soc, nprs, nR=3):
     """a random Hermitian System_R whose Wannier functions follow proj (atom:shell), centres near the atomic sites"""
-    from wannierberri.system.system_R import System_R
-    from wannierberri.fourier.rvectors import Rvectors
     from wannierberri.symmetry.orbitals import num_orbitals
     cent = []
     for p in proj:
@@ -227,7 +265,13 @@ def random_system(lattice, positions, names, proj, soc, nprs, nR=3):
             if nm == atom:
                 for _ in range(no):
                     cent.append(pos + (nprs.rand(3) - 0.5) * 0.1)
-    cent = np.array(cent)
+    return random_system_at(lattice, np.array(cent), nprs, nR)
+
+
+def random_system_at(lattice, cent, nprs, nR=3):
+    """a random Hermitian System_R (Ham, AA, SS) with Wannier centres cent (reduced coordinates)"""
+    from wannierberri.system.system_R import System_R
+    from wannierberri.fourier.rvectors import Rvectors
     nw = len(cent)
     Rs = {(0, 0, 0)}
     while len(Rs) < nR:
@@ -305,33 +349,16 @@ def centre_images(rep, symm, system):
     return w if ok else None
 
 
-def symmetrize_run(rep, st, shells, soc, nprs, counts):
-    """one System_R.symmetrize on a random Hermitian model of structure st; returns residuals (dict) or None if skipped"""
+def assess(rep, system, symm, lattice, pops, resym, nprs, counts, detail, full_group=True):
+    """what the statement says about a symmetrised system, for the operations pops = {(W, time reversal)} it was symmetrised
+    with: Hermiticity, E / curvature / spin at g k, centres, idempotence (resym() symmetrises once more).  -> (residuals, k) or None"""
     from wannierberri.evaluate_k import evaluate_k
-    lattice = sc.lattice_of(st["lat"])
     linvT = np.linalg.inv(lattice).T
-    positions = np.array(st["pos"], dtype=float) / sc.DEN
-    names = [f"X{t}" for t in st["types"]]
-    proj = [f"{nm}:{sh}" for nm in sorted(set(names)) for sh in shells]
-    magnetic = any(any(m) for m in st["mom"])
-    magmom = np.array(st["mom"], dtype=float) if magnetic else None
-    system = random_system(lattice, positions, names, proj, soc, nprs)
-    detail = dict(structure=st["key"], lattice=lattice.tolist(), positions=positions.tolist(), atom_name=names, proj=proj, soc=soc,
-                  magmom=None if magmom is None else magmom.tolist())
-    with quiet(), warnings.catch_warnings():
-        warnings.simplefilter("ignore")
-        good, symm = sc.guarded(rep, "System_R.symmetrize", detail, system.symmetrize, proj=proj, positions=positions, atom_name=names, soc=soc,
-                                magmom=magmom, silent=True)
-    if not good:
-        return None
-    key = (st["key"], tuple(shells), soc)
     res = dict(energy=0.0, berry=0.0, spin=0.0, herm=0.0, centres=0.0, idem=0.0)
-    # Hermiticity
     for k in MATS:
         X = system.get_R_mat(k)
         res["herm"] = max(res["herm"], float(np.abs(X - system.rvec.conj_XX_R(X)).max()))
-    # covariance under every operation of the specification's point group (k' = +-W^-T k; axial vectors, odd under time reversal)
-    pops = sorted({(W, tr) for W, _, tr in st["ops"]})
+    # covariance under every operation (k' = +-W^-T k; axial vectors, odd under time reversal)
     quantities = ["energy", "berry_curvature", "spin"]
     kpt = None
     for _ in range(40):
@@ -365,18 +392,16 @@ def symmetrize_run(rep, st, shells, soc, nprs, counts):
         res["berry"] = max(res["berry"], float(np.abs(group_sums(r1["energy"], r1["berry_curvature"]) - ax * group_sums(E0, r0["berry_curvature"]) @ Wc.T).max()))
         res["spin"] = max(res["spin"], float(np.abs(group_sums(r1["energy"], r1["spin"]) - ax * group_sums(E0, r0["spin"]) @ Wc.T).max()))
         counts["ops_checked"] += 1
-    # the library's own check and its group size: information only
-    try:
-        with quiet():
-            errs, _ = system.check_symmetry(kpoint=kpt)
-        res["library_check"] = float(max(errs.values()))
-        counts["library_group_differs"] += int(len(system.pointgroup.symmetries) != len(pops))
-        counts["library_check_disagrees"] += int(res["library_check"] > TOL_BERRY and max(res["energy"], res["berry"], res["spin"]) <= TOL)
-    except Exception as ex:
-        counts["library_check_unavailable"] += 1
-        rep.part("library_check", note=f"{type(ex).__name__}: {ex}"[:200])
-    if symm is None:
-        raise MachineryError("symmetrize returned no symmetrizer")
+    if full_group:      # the library's own check and its group size: information only
+        try:
+            with quiet():
+                errs, _ = system.check_symmetry(kpoint=kpt)
+            res["library_check"] = float(max(errs.values()))
+            counts["library_group_differs"] += int(len(system.pointgroup.symmetries) != len(pops))
+            counts["library_check_disagrees"] += int(res["library_check"] > TOL_BERRY and max(res["energy"], res["berry"], res["spin"]) <= TOL)
+        except Exception as ex:
+            counts["library_check_unavailable"] += 1
+            rep.part("library_check", note=f"{type(ex).__name__}: {ex}"[:200])
     # centres: fixed point of the symmetrizer, and images of orbitals that are mapped onto single orbitals
     wcc = system.wannier_centers_cart
     ok, w2 = sc.private(rep, "SymmetrizerSAWF.symmetrize_WCC", lambda: np.asarray(symm.symmetrize_WCC(wcc)))
@@ -391,24 +416,129 @@ def symmetrize_run(rep, st, shells, soc, nprs, counts):
     w0 = system.wannier_centers_cart.copy()
     with quiet(), warnings.catch_warnings():
         warnings.simplefilter("ignore")
-        good, _ = sc.guarded(rep, "System_R.symmetrize2", detail, system.symmetrize2, symm, silent=True)
+        good = resym()
     if not good:
         return None
     res["idem"] = max(diff_functions(before, as_function(system)), float(np.abs(system.wannier_centers_cart - w0).max()))
-    rep.case(("symmetrize",) + key)
+    res["nops"] = len(pops)
+    return res, kpt
+
+
+def judge(rep, res, kpt, mixed_class, detail, site="System_R.symmetrize"):
+    res["mixed_class"] = mixed_class
+    for nm in ("energy", "berry", "spin", "herm", "centres", "idem"):
+        if res[nm] > (TOL_BERRY if nm == "berry" else TOL):
+            if mixed_class and nm in ("berry", "centres", "idem"):
+                rep.violation("System_R.symmetrize:mixed_centres", dict(detail, kpoint=kpt.tolist(), residuals=res, numpy_seed="see evidence seed"))
+            else:
+                rep.violation(f"{site}:{nm}", dict(detail, kpoint=kpt.tolist(), residuals=res, numpy_seed="see evidence seed"))
+
+
+def in_mixed_class(st, shells):
+    return bool(st["mixed"]) and any(sh in MIXED_SHELLS["hex" if st["lat"] == "hex" else "orthogonal"] for sh in shells)
+
+
+def symmetrize_run(rep, st, shells, soc, nprs, counts):
+    """one System_R.symmetrize on a random Hermitian model of structure st; returns residuals (dict) or None if skipped"""
+    lattice = sc.lattice_of(st["lat"])
+    positions = np.array(st["pos"], dtype=float) / sc.DEN
+    names = [f"X{t}" for t in st["types"]]
+    proj = [f"{nm}:{sh}" for nm in sorted(set(names)) for sh in shells]
+    magnetic = any(any(m) for m in st["mom"])
+    magmom = np.array(st["mom"], dtype=float) if magnetic else None
+    system = random_system(lattice, positions, names, proj, soc, nprs)
+    detail = dict(structure=st["key"], lattice=lattice.tolist(), positions=positions.tolist(), atom_name=names, proj=proj, soc=soc,
+                  magmom=None if magmom is None else magmom.tolist())
+    with quiet(), warnings.catch_warnings():
+        warnings.simplefilter("ignore")
+        good, symm = sc.guarded(rep, "System_R.symmetrize", detail, system.symmetrize, proj=proj, positions=positions, atom_name=names, soc=soc,
+                                magmom=magmom, silent=True)
+    if not good:
+        return None
+    if symm is None:
+        raise MachineryError("symmetrize returned no symmetrizer")
+    pops = sorted({(W, tr) for W, _, tr in st["ops"]})
+    out = assess(rep, system, symm, lattice, pops, lambda: sc.guarded(rep, "System_R.symmetrize2", detail, system.symmetrize2, symm, silent=True)[0],
+                 nprs, counts, detail)
+    if out is None:
+        return None
+    res, kpt = out
+    rep.case(("symmetrize", st["key"], tuple(shells), soc))
     counts["runs"] += 1
     counts["soc"] += int(soc)
     counts["magnetic"] += int(magnetic)
-    mixed_class = bool(st["mixed"]) and any(sh in MIXED_SHELLS["hex" if st["lat"] == "hex" else "orthogonal"] for sh in shells)
-    res["mixed_class"] = mixed_class
-    res["nops"] = len(pops)
+    mixed_class = in_mixed_class(st, shells)
     counts["hexagonal"] += int(st["lat"] == "hex" and not mixed_class)
-    for nm in ("energy", "berry", "spin", "herm", "centres", "idem"):
-        if res[nm] > (TOL_BERRY if nm == "berry" else TOL):
-            keyname = "mixed_centres" if (mixed_class and nm in ("berry", "centres", "idem")) else nm
-            rep.violation(f"System_R.symmetrize:{keyname}", dict(detail, kpoint=kpt.tolist(), residuals=res, numpy_seed="see evidence seed"))
     counts["mixed_class"] += int(mixed_class)
+    judge(rep, res, kpt, mixed_class, detail)
     return res
+
+
+def symmetrize2_run(rep, st, shells, soc, nprs, counts, kind=None, site_frames=False):
+    """System_R.symmetrize2 with a symmetrizer built from Projection objects, on a random Hermitian model that is NOT symmetric:
+    kind = a subgroup of the specification (option use_symmetries_index): the statement is tested for the operations of
+    that subgroup; site_frames = projections with site-dependent local frames (Projection(basis_list=...)).
+    -> (residuals, list of subgroup operations) or None"""
+    from wannierberri.symmetry.sawf import SymmetrizerSAWF
+    from wannierberri.symmetry.projections import Projection
+    lattice = sc.lattice_of(st["lat"])
+    detail = dict(structure=st["key"], lattice=lattice.tolist(), shells=list(shells), soc=soc, subgroup=kind, site_dependent_frames=site_frames,
+                  entry="System_R.symmetrize2")
+
+    def build():
+        sg, op_of, _, positions = sc.real_spacegroup(st, spinor=soc)
+        if site_frames:     # explicit orthonormal local frames (rows), a different one on every site of an orbit
+            projs = [Projection(position_num=positions[orb], orbital=sh, spacegroup=sg, basis_list=[FRAMES[(n + m) % len(FRAMES)] for m in range(len(orb))])
+                     for n, orb in enumerate(site_orbits(st)) for sh in shells]
+        else:
+            projs = [Projection(position_num=positions[orb], orbital=sh, spacegroup=sg, rotate_basis=False) for orb in site_orbits(st) for sh in shells]
+        return sg, op_of, projs, SymmetrizerSAWF.from_spacegroup_and_projections(spacegroup=sg, projections=projs)
+    with quiet(), warnings.catch_warnings():
+        warnings.simplefilter("ignore")
+        good, built = sc.guarded(rep, "Projection/SymmetrizerSAWF", detail, build)
+    if not good:
+        return None
+    sg, op_of, projs, symm = built
+    ok, cent = sc.private(rep, "Projection.positions/num_wann_per_site",
+                          lambda: np.array([p for pr in projs for p in np.asarray(pr.positions, dtype=float).reshape(-1, 3) for _ in range(int(pr.num_wann_per_site))]))
+    if not ok:
+        return None
+    if site_frames:
+        ok, differ = sc.private(rep, "Projection.basis_list", lambda: any(not np.allclose(pr.basis_list, pr.basis_list[0]) for pr in projs))
+        if not ok or not differ:
+            counts["frames_not_site_dependent"] = counts.get("frames_not_site_dependent", 0) + 1
+            return None
+    system = random_system_at(lattice, cent + (nprs.rand(*cent.shape) - 0.5) * 0.1, nprs, nR=5)
+    if kind is None:
+        sub_spec, use = list(range(len(st["ops"]))), None
+    else:
+        sub_spec = list(st["sub"][kind])
+        use = [isym for isym, n in enumerate(op_of) if n in set(sub_spec)]
+        detail["use_symmetries_index"] = use
+    kw = {} if use is None else dict(use_symmetries_index=use)
+
+    def sym2():
+        try:
+            return sc.guarded(rep, "System_R.symmetrize2", detail, system.symmetrize2, symm, silent=True, **kw)[0]
+        except TypeError as ex:          # the option was renamed: harness side
+            rep.part("skipped_private", symmetrize2_use_symmetries_index=str(ex)[:200])
+            return None
+    with quiet(), warnings.catch_warnings():
+        warnings.simplefilter("ignore")
+        good = sym2()
+    if not good:
+        return None
+    pops = sorted({(st["ops"][n][0], st["ops"][n][2]) for n in sub_spec})
+    out = assess(rep, system, symm, lattice, pops, sym2, nprs, counts, detail, full_group=kind is None)
+    if out is None:
+        return None
+    res, kpt = out
+    rep.case(("symmetrize2", st["key"], tuple(shells), soc, kind, site_frames))
+    counts["subgroup_runs" if kind else "site_frame_runs"] += 1
+    mixed_class = in_mixed_class(st, shells)
+    counts["mixed_class"] += int(mixed_class)
+    judge(rep, res, kpt, mixed_class, detail, site="System_R.symmetrize2")
+    return res, [st["ops"][n] for n in sub_spec] if kind else []
 
 
 def random_structure(rng):
